@@ -178,11 +178,20 @@ a_size a_str_getn(a_str *ctx, void *pdata, a_size nbyte)
     return nbyte;
 }
 
+/* offset of a block that lies inside the string's own content, which a reallocation may move; else A_SIZE_MAX */
+static a_size a_str_own_(a_str const *ctx, void const *pdata)
+{
+    char const *const p = (char const *)pdata;
+    return (ctx->ptr_ && p >= ctx->ptr_ && p < ctx->ptr_ + ctx->num_) ? (a_size)(p - ctx->ptr_) : A_SIZE_MAX;
+}
+
 int a_str_catn_(a_str *ctx, void const *pdata, a_size nbyte)
 {
+    a_size const own = a_str_own_(ctx, pdata);
     int rc = a_str_setm(ctx, ctx->num_ + nbyte);
     if (rc == 0 && nbyte)
     {
+        if (own != A_SIZE_MAX) { pdata = ctx->ptr_ + own; }
         a_copy(ctx->ptr_ + ctx->num_, pdata, nbyte);
         ctx->num_ += nbyte;
     }
@@ -191,11 +200,13 @@ int a_str_catn_(a_str *ctx, void const *pdata, a_size nbyte)
 
 int a_str_catn(a_str *ctx, void const *pdata, a_size nbyte)
 {
+    a_size const own = a_str_own_(ctx, pdata);
     int rc = a_str_setm(ctx, ctx->num_ + nbyte + 1);
     if (rc == 0)
     {
         if (nbyte)
         {
+            if (own != A_SIZE_MAX) { pdata = ctx->ptr_ + own; }
             a_copy(ctx->ptr_ + ctx->num_, pdata, nbyte);
             ctx->num_ += nbyte;
         }
